@@ -543,6 +543,32 @@ func (sa *sharedAnalysis) collect(scope map[*ssa.Function]bool) {
 						}
 					}
 				}
+				// internally synchronised containers (sync.Map, atomic.Value): not a data race, but still state that one
+				// goroutine leaves for another - recorded with a pseudo lock so that only the state rules see them
+				if sc := x.Common().StaticCallee(); sc != nil && !fnInModule(sc) && sc.Signature.Recv() != nil && len(x.Common().Args) > 0 {
+					if tn := syncContainerType(sc.Signature.Recv().Type()); tn != "" {
+						recv := x.Common().Args[0]
+						write := map[string]bool{"Store": true, "LoadOrStore": true, "LoadAndDelete": true, "Delete": true, "Swap": true, "CompareAndSwap": true, "CompareAndDelete": true, "Clear": true}[sc.Name()]
+						locs := map[string]bool{}
+						if l := locOf(recv); l != "" {
+							if sa.sharedBase(baseOf(recv), 0) {
+								locs[l] = true
+							}
+						} else if sa.sharedBase(recv, 0) {
+							containerLocs(recv, 0, locs)
+						}
+						for l := range locs {
+							before := len(sa.Acc)
+							sa.add(l, write, ins, tn+"."+sc.Name())
+							for _, a := range sa.Acc[before:] {
+								if a.Locks == nil {
+									a.Locks = map[string]bool{}
+								}
+								a.Locks["<"+tn+">"] = true
+							}
+						}
+					}
+				}
 				// builtin delete/copy/append on shared containers
 				if b, ok := x.Common().Value.(*ssa.Builtin); ok {
 					switch b.Name() {
@@ -852,4 +878,60 @@ func spilledParam(v ssa.Value) *ssa.Parameter {
 		}
 	}
 	return par
+}
+
+// reachOfSelf: the named functions and their closures only (no callees).
+func reachOfSelf(c *Ctx, names ...string) map[*ssa.Function]bool {
+	out := map[*ssa.Function]bool{}
+	for _, n := range names {
+		f := c.fn(n)
+		for _, g := range c.family(f) {
+			out[g] = true
+		}
+	}
+	return out
+}
+
+// syncContainerType names the standard-library containers that synchronise internally.
+func syncContainerType(t types.Type) string {
+	if p, ok := t.(*types.Pointer); ok {
+		t = p.Elem()
+	}
+	n, ok := t.(*types.Named)
+	if !ok || n.Obj().Pkg() == nil {
+		return ""
+	}
+	switch n.Obj().Pkg().Path() + "." + n.Obj().Name() {
+	case "sync.Map", "sync/atomic.Value":
+		return n.Obj().Pkg().Name() + "." + n.Obj().Name()
+	}
+	return ""
+}
+
+// ruleAPIWritesNothingSyncReads: no in-memory location written while serving an API request is read (or written) by
+// block processing - synchronised or not: a lock prevents the data race, not the influence.
+func ruleAPIWritesNothingSyncReads(c *Ctx, sa *sharedAnalysis, r *Report, rule string) {
+	r.rule(rule, 1, "API handlers leave no in-memory state that block processing reads")
+	sum := sa.summarize()
+	var locs []string
+	for l := range sum {
+		locs = append(locs, l)
+	}
+	sort.Strings(locs)
+	n := 0
+	for _, l := range locs {
+		s := sum[l]
+		if len(s.APIW) == 0 || len(s.SyncR)+len(s.SyncW) == 0 {
+			continue
+		}
+		for _, fw := range sortedFuncs(fnSet(s.APIW)) {
+			n++
+			ws := byFn(s.APIW)[fw]
+			syncAcc := append(append([]*Access{}, s.SyncR...), s.SyncW...)
+			r.viol(rule, fmt.Sprintf("location %s written by %s while serving a request", l, fname(fw)), c.ipos(ws[0].Ins), fmt.Sprintf("%s (%s) is also used by block processing in %s: what the daemon computes depends on which requests were served and when (e.g. a 'not found' answer cached before the block commits)", l, ws[0].How, accDesc(c, syncAcc, 3)))
+		}
+	}
+	if n == 0 {
+		r.okNT(rule, "no location written on API goroutines is used by block processing", "-", fmt.Sprintf("%d shared locations examined", len(locs)))
+	}
 }
